@@ -13,7 +13,7 @@ import random
 
 from harness import core, sysrun
 
-MODES = ("plain", "cancel", "kill", "timeout", "sbatchfail", "squeuefail", "write", "hooks", "cyclic", "local", "racing_try", "appendtimeout", "suspend", "resubmit", "scanerror", "multigroup", "suspendcancel", "interrupt")
+MODES = ("plain", "cancel", "kill", "timeout", "sbatchfail", "squeuefail", "write", "hooks", "cyclic", "local", "racing_try", "appendtimeout", "suspend", "resubmit", "scanerror", "multigroup", "suspendcancel", "interrupt", "resubmit_nofault", "resubmit_hooks", "bigloss")
 WRITE_SITES = ["write:job_status.json", "write:cluster_config.json", "write:config_version", "write:job_status_version",
                "write:batch_config", "write:marker_touch", "write:marker_remove", "append:processed_results.csv",
                "consolidate:processed_results.csv", "consolidate:processed_results.csv"]
@@ -23,7 +23,7 @@ def make_case(seed, mode):
     rng = random.Random(seed * 1000003 + hash(mode) % 9973)
     force = None
     hooks = None
-    if mode == "hooks":
+    if mode in ("hooks", "resubmit_hooks"):
         hooks = {k: rng.random() < 0.7 for k in ("setup", "teardown", "node_setup", "node_teardown")}
         if rng.random() < 0.35:
             # a teardown / node hook that exits non-zero is logged, it does not stop the submission
@@ -46,6 +46,19 @@ def make_case(seed, mode):
         for g in sc["groups"]:
             g["size"] = rng.choice([1, 1, 2])       # several batches per round: the interrupt falls between two sbatch calls
         plan["break_stale"] = rng.random() < 0.5
+    elif mode == "bigloss":
+        # one batch with many jobs is lost early: more than ten jobs end up without a result and every one of them
+        # must be listed as missing
+        n = rng.randint(13, 18)
+        g = dict(sc["groups"][0], size=n, time=False)
+        g["try"] = True
+        sc["groups"] = [g]
+        sc["jobs"] = [{"name": f"j{i}", "deps": ([f"j{rng.randrange(i)}"] if i and rng.random() < 0.3 else []), "cancel": rng.random() < 0.3,
+                       "est": 1, "group": g["name"], "rc": (2 if rng.random() < 0.1 else 0)} for i in range(n)]
+        sc["max_nodes"] = 1
+        plan["actions"] = [{"when": {"k": "batch_start", "field": "k", "n": 1}, "do": "timeout"}] if rng.random() < 0.5 \
+            else [{"at": rng.randint(10, 45), "do": "timeout"}]
+        plan["break_stale"] = True
     elif mode == "timeout":
         plan["actions"] = [{"at": at, "do": "timeout"}]
         if rng.random() < 0.3:
@@ -108,10 +121,10 @@ def make_case(seed, mode):
         plan["actions"] = [{"at": at, "do": "suspend"}, {"at": at + rng.randint(1, 20), "do": "cancel"}]
         if rng.random() < 0.5:
             plan["actions"].append({"at": at + rng.randint(25, 60), "do": "try"})
-    elif mode == "resubmit":
+    elif mode in ("resubmit", "resubmit_nofault", "resubmit_hooks", "bigloss"):
         # the submission completes (sometimes after losing a batch), then `jade resubmit-jobs` reruns the failed /
         # canceled / missing jobs and their dependents, and the submission runs to completion a second time
-        if rng.random() < 0.4:
+        if rng.random() < 0.4 and mode == "resubmit":      # (resubmit_nofault: histories without faults, for C09)
             plan["actions"] = [{"at": at, "do": "timeout"}]
             plan["break_stale"] = True
         if not any(j.get("rc") for j in sc["jobs"]) and not plan.get("actions"):
